@@ -32,8 +32,10 @@ theorem step_base_of_not_stack (b : Store) (c : Layer) (ds : DState) (op : Op)
   | undo x u => simp only [step]; repeat' split
                 all_goals exact ⟨_, _, rfl⟩
   | checkCurrent x o ser => exact ⟨_, _, rfl⟩
-  | pack P => simp only [step]; repeat' split
-              all_goals exact ⟨_, _, rfl⟩
+  | pack P gc =>
+    simp only [step]
+    repeat' split
+    all_goals exact ⟨_, _, rfl⟩
   | newOid draws => simp only [step]; repeat' split
                     all_goals exact ⟨_, _, rfl⟩
   | push d => simp [Op.isStack] at h
